@@ -16,13 +16,23 @@
 // is a different term).
 // Inputs per harness: ONE CONCRETE data set (labels and counts), alpha = SYM(1), an unknown non-negative constant; priors = None.
 //
-// unique_with_indices.  fit starts with <Vec<T> as RealNumberVector<T>>::unique_with_indices, which indexes the labels through
-// a std HashMap; std's HashMap does not leave CBMC's symbolic execution in admissible time (kani/c11_unique.rs: ~10 min for one
-// call on three concrete f64 labels; kani/c18_encoder.rs reports the same for CategoryMapper).  Two variants are registered:
-//   *_stub : unique_with_indices is replaced (kani::stub) by `verif_unique_with_indices` below, an executable copy of what the
-//            function is for: the distinct labels in ascending order, and for every row the position of its label among them
-//            (the real function is exercised on its own by kani/c11_unique.rs).  Everything else of fit runs as written.
-//   *_real : nothing replaced except the random SipHash keys of the map (fixed, as in c11_unique.rs).
+// STATUS: NOT REGISTERED (not admitted).  fit starts with <Vec<T> as RealNumberVector<T>>::unique_with_indices, which indexes the
+// labels through a std HashMap, and std's HashMap does not leave CBMC's symbolic execution in admissible time.  Measured here
+// (Kani 0.68 / CBMC 6.11, 16 cores, default runner flags):
+//   * c11_mult_fit_n2_f2_real below (n = 2 rows, 2 features, 2 classes, SipHash keys fixed): timeout after 1500 s.  The term type
+//     needs #[kani::unwind(33)] (31-node terms), and that bound also applies to hashbrown's probe loops and to Kani's 16-lane
+//     simd_bitmask model, whose exit conditions CBMC does not decide during symbolic execution.
+//   * HashMap<i64, usize> alone (with_capacity(2), 2 inserts, 2 lookups, unwind 8): still in symbolic execution after 7.5 min.
+//   * sort_by + dedup alone: 1 s.  Everything after unique_with_indices is cheap (see c11_nb_categorical.rs).
+// Replacing the HashMap part by an executable stand-in (as kani/c18_encoder.rs does for CategoryMapper) is not possible with
+// Kani 0.68:
+//   * #[kani::stub(<std::vec::Vec<Q> as RealNumberVector<Q>>::unique_with_indices, ..)]: "unable to find implementation of
+//     associated function ... for Vec<T, A>" -- the method lives in the BLANKET impl `impl<T, V: BaseVector<T>> RealNumberVector<T>
+//     for V`, which Kani's path resolver does not search; stubbing the trait method itself is refused ("function does not have a body");
+//   * std::collections::HashMap::{insert, get} carry the unstable allocator parameter A (a stub must repeat `A: Allocator`, which
+//     needs #![feature(allocator_api)] at the crate root), and the stub of `get` is additionally refused on its (named) lifetime;
+//     <HashMap as Index>::index is not resolvable either.
+// `verif_unique_with_indices` is kept as the stand-in to attach once the path can be named; the harness below is the *_real variant.
 use super::*;
 use crate::linalg::naive::dense_matrix::DenseMatrix;
 use crate::linalg::BaseMatrix;
@@ -32,45 +42,6 @@ include!("/verif/kani/c11_term.rs");
 #[allow(dead_code)]
 fn c11_fixed_random_state() -> std::collections::hash_map::RandomState {
     unsafe { std::mem::transmute::<[u64; 2], std::collections::hash_map::RandomState>([0u64, 0u64]) }
-}
-
-static mut VERIF_HM_KEYS: [i64; 4] = [0; 4];
-static mut VERIF_HM_VALS: [usize; 4] = [0; 4];
-static mut VERIF_HM_LEN: usize = 0;
-
-#[allow(dead_code)]
-fn verif_hm_with_capacity<K, V>(_capacity: usize) -> std::collections::HashMap<K, V, std::collections::hash_map::RandomState> {
-    unsafe {
-        VERIF_HM_LEN = 0;
-    }
-    std::collections::HashMap::with_hasher(c11_fixed_random_state())
-}
-
-#[allow(dead_code)]
-fn verif_hm_insert<K, V, S>(_m: &mut std::collections::HashMap<K, V, S>, k: K, v: V) -> Option<V> {
-    unsafe {
-        let kk: i64 = core::mem::transmute_copy(&k);
-        let vv: usize = core::mem::transmute_copy(&v);
-        VERIF_HM_KEYS[VERIF_HM_LEN] = kk;
-        VERIF_HM_VALS[VERIF_HM_LEN] = vv;
-        VERIF_HM_LEN += 1;
-    }
-    None
-}
-
-#[allow(dead_code)]
-fn verif_hm_get<'a, K, V, S, Qk: ?Sized>(_m: &'a std::collections::HashMap<K, V, S>, key: &Qk) -> Option<&'a V> {
-    unsafe {
-        let kk: i64 = *(key as *const Qk as *const i64);
-        let mut i = 0;
-        while i < VERIF_HM_LEN {
-            if VERIF_HM_KEYS[i] == kk {
-                return Some(&*(&VERIF_HM_VALS[i] as *const usize as *const V));
-            }
-            i += 1;
-        }
-    }
-    None
 }
 
 // executable stand-in of unique_with_indices for INTEGER labels: (distinct labels ascending, position of each row's label)
@@ -244,17 +215,6 @@ macro_rules! multinomial_fit_body {
     }};
 }
 
-macro_rules! multinomial_fit_harness_stub {
-    ($name:ident, $n:expr, $nf:expr, $k:expr, $labels:expr, $classes:expr, $data:expr, $unw:expr) => {
-        #[kani::proof]
-        #[kani::unwind($unw)]
-        #[kani::stub(std::collections::hash_map::RandomState::new, c11_fixed_random_state)]
-        fn $name() {
-            multinomial_fit_body!($n, $nf, $k, $labels, $classes, $data)
-        }
-    };
-}
-
 macro_rules! multinomial_fit_harness_real {
     ($name:ident, $n:expr, $nf:expr, $k:expr, $labels:expr, $classes:expr, $data:expr, $unw:expr) => {
         #[kani::proof]
@@ -267,6 +227,4 @@ macro_rules! multinomial_fit_harness_real {
 }
 
 //                            name                           n  nf k  labels      classes  data                       unwind
-multinomial_fit_harness_stub!(c11_mult_fit_n2_f2_stub, 2, 2, 2, [0, 1], [0, 1], [[1, 2], [3, 0]], 33);
-multinomial_fit_harness_stub!(c11_mult_fit_n3_f2_stub, 3, 2, 2, [5, -2, 5], [-2, 5], [[1, 0], [0, 2], [2, 1]], 33);
 multinomial_fit_harness_real!(c11_mult_fit_n2_f2_real, 2, 2, 2, [0, 1], [0, 1], [[1, 2], [3, 0]], 33);
